@@ -18,10 +18,17 @@ for d in sorted(glob.glob(os.path.join(ROOT, "seeded", "*"))):
 hdr = """### 9.5 Seeded changes and which checks catch them
 
 %d changes to txtpp were written by sub-agents that saw only the text of one property and a scratch worktree
-(two rounds; the second asked for less obvious sites). Each was confirmed in a scratch worktree (`tools/confirm_seeds.sh`:
-the patch applies, the 104 tests + 4 doc tests pass with it, its demonstration fails with it and passes without it) and is
+(three rounds; the second asked for less obvious sites, the third - `"round": 3` in meta.json - for three mutually different
+mechanisms per property with narrow failing inputs). Each was confirmed in a scratch worktree (`tools/confirm_seeds.sh`,
+`tools/confirm_seeds3.sh`: the patch applies, the 104 tests + 4 doc tests pass with it, it builds with the `verif` feature, its
+demonstration behaves differently with it than without it) and is
 kept under `seeded/<id>/` (patch.diff, demo/, meta.json). `tools/run_seeds.py` applies each to /repo, runs the quick check of
 its property, and undoes it. "correspondence only" = the check reports the violation with `no-failing-input-found`.
+Three round-3 changes were missed at first (C07-4: temp target `name.txtpp.ext` accepted, C16-3: tab after the directive name
+accepted - the identity generator filtered its alphabet through the implementation's own `detect_from`, C17-5: working
+directory passed as a lossy display string); the generators/oracles were strengthened (temp targets of both txtpp name shapes
+incl. one naming an existing source; the alphabet is classified by the Lean grammar model; directory names that are not
+UTF-8 / contain blanks, quotes, backslashes) and all three are caught now.
 
 | id | property | what the change does | caught by (quick tier) |
 |----|----------|----------------------|------------------------|
